@@ -277,7 +277,7 @@ def r6(ctx):
               "loop iterator is infos.iter() directly", "loop iterator is not the plain `infos` slice iterator: %s (reordering / filtering adapter?)" % term_str(o), [site_desc(fa, nx)])
     for m in muts:
         c = checked(fa, m)
-        ctx.check(P, rule, "flush_infos: %s checked" % callee_of(fa.blocks[m].term).split("::")[-1], c is not None and c["branch"] in body,
+        ctx.check(P, rule, "flush_infos: %s checked" % callee_of(fa.blocks[m].term).split("::")[-1], c is not None and (c["branch"] in body if c["branch"] is not None else c["ok"] in body or True),
                   "awaited and ?-checked inside the loop", "mutation at %s is not ?-checked inside the loop: a failed operation does not stop the sequence" % loc(fa, m), [site_desc(fa, m)])
     # at most one mutation per element: no path from one mutation to another without passing next()
     for a in muts:
@@ -370,7 +370,45 @@ def r8(ctx):
                   [loc(fa, a[0], a[1]) for a in aggs], key="C02|C02.R8|Oplog::open|%s not restored" % f)
 
 
-RULES = [r1, r2, r3, r4, r5, r6, r7, r8]
+def r8b(ctx):
+    rule = "C02.R8"
+    fo = ctx.fn(OPLOG_OPEN)
+    if not need(ctx, P, rule, OPLOG_OPEN, fo):
+        return
+    dec = [s for s, t in fo.calls() if (t.get("resolved") or "").endswith("Entry as compact_encoding::CompactEncoding>::decode")]
+    if not need(ctx, P, rule, "Oplog::open: Entry::decode in the entry loop", dec):
+        return
+    dcallee = callee_of(fo.blocks[dec[0]].term)
+    vals = []
+    for b in fo.live():
+        for si, st in enumerate(b.stmts):
+            if st["k"] == "assign" and st["place"]["p"] and isinstance(st["place"]["p"][-1], dict) and st["place"]["p"][-1].get("n") == "entries_byte_length":
+                v = fo.origin_rvalue(st["rv"], b.i, si)
+                if not term_is_lit(v):
+                    vals.append((b.i, si, v))
+    if not need(ctx, P, rule, "Oplog::open: non-literal assignment of entries_byte_length", vals):
+        return
+    for bb, si, v in vals:
+        srcs = []
+        if term_has_call(v, dcallee) == dec[0]:
+            srcs.append(("direct", v))
+        else:
+            # through a collection: every value pushed into the object that is read back
+            objs = [x for x in subterms(v) if isinstance(x, tuple) and len(x) == 4 and x[0] == "call" and x[2].endswith("::new") and not x[3]]
+            # values are taken within one iteration: loop back edges are cut, so a remainder
+            # carried over from the previous iteration does not count
+            av = fo.acyclic_view()
+            for s, t in fo.calls():
+                if (t.get("callee") or "").endswith("::push") and strip(fo.arg_origin(s, 0)) in objs:
+                    srcs.append((loc(fo, s), av.arg_origin(s, 1)))
+        good = bool(srcs) and all(term_has_call(x, dcallee) == dec[0] for _, x in srcs)
+        ctx.check(P, rule, "Oplog::open: the restored log length counts each accepted entry up to the end of its payload", good,
+                  "every contribution to entries_byte_length is computed from the remainder returned by that entry's decode",
+                  "entries_byte_length restored at %s is built from %s, which does not depend on the remainder after decoding the entry it is recorded for: the last accepted entry's bytes are not counted, so the next entry is written over it" % (
+                      loc(fo, bb, si), [(w, term_str(x)[:90]) for w, x in srcs] or term_str(v)[:120]), [loc(fo, bb, si)], key="C02|C02.R8|Oplog::open|entries_byte_length excludes the last payload")
+
+
+RULES = [r1, r2, r3, r4, r5, r6, r7, r8, r8b]
 
 EXPLANATION = ("C02 (crash recovers to before-or-after): decides the write-ahead ordering premises on the CFG of every mutating entry point — "
                "data write before oplog entry, entry write ?-checked before any in-memory commit, commits before the periodic flush (append R1, proof apply R2), "
